@@ -27,7 +27,7 @@ ASSUMPTIONS = [
 COMPONENTS = {"real": ["TradingEnv.step", "Broker.rebalance/net_liquidation_value", "rewards.*", "Transmitter", "Exchange"],
               "harness": ["shock generator", "independent Fraction ledger"], "stub": []}
 PROBE_FLOORS = {"ruin_on_arrival": 21, "ruin_post_trade": 100, "ruin_exactly_zero": 20, "ruin_on_first_step": 36,
-                "ruin_by_own_costs": 50, "steps_attempted_after_end": 300, "recovery_after_ruin": 50, "reset_after_ruin_works": 20}
+                "ruin_by_own_costs": 50, "steps_attempted_after_end": 300, "recovery_after_ruin": 50, "reset_after_ruin_works": 20, "ruin_inside_spread_band": 12}
 
 
 def generate(rng, i):
@@ -60,15 +60,27 @@ def generate(rng, i):
         specs.append({"name": "E1", "kind": "ETF"})
     w = rng.choice([2.0, 3.0, 1.5, -1.5, -2.5, -1.0]) if not exact else rng.choice([2.0, -1.0])
     crit = 1 - 1 / w
+    spread = 0.0 if exact else rng.choice([0, 0, 0.001])
+    # 'band' arm: a wide spread and a shock that lands between the two solvency boundaries (the account is worth
+    # <= 0 at the liquidation side of the quote but > 0 at the other side), for either sign of the position
+    band = (not exact) and phase != "own_costs" and rng.random() < 0.15
+    if band:
+        spread = rng.choice([0.02, 0.05])
     if exact:
         f = crit
+    elif band:
+        lo_s, hi_s = (1 - spread / 2), (1 + spread / 2)
+        # long: bought at ask0 = p*hi_s, valued at bid' = p*f*lo_s; short: sold at bid0 = p*lo_s, valued at ask' = p*f*hi_s
+        f_liq = crit * (hi_s / lo_s if w > 0 else lo_s / hi_s)        # NLV = 0 at the liquidation side
+        f_other = crit                                               # NLV = 0 if valued at the entry side
+        u = rng.uniform(0.25, 0.75)
+        f = f_liq + u * (f_other - f_liq)
     elif w > 0:
         f = crit * rng.uniform(0.3, 0.95)
     else:
         f = crit * rng.uniform(1.05, 3.0)
     kshock = rng.randint(1, n - 2)
     p = 64.0 if exact else rng.choice([10.0, 100.0, 2500.0])
-    spread = 0.0 if exact else rng.choice([0, 0, 0.001])
     events = []
 
     def add(t, c, mid):
@@ -121,7 +133,7 @@ def generate(rng, i):
     for k in range(rng.randint(1, 2)):
         script.append({"op": "step", "env": 0, "action": [0.0] * (2 if two else 1)})
     return {"kind": "epi", "envs": [env], "clock0": "1999-01-01T00:00:00", "script": script, "prng": rng.randrange(2 ** 31),
-            "meta": {"phase": phase, "w": w, "f": f, "kshock": kshock, "exact": exact, "recovery": recovery}}
+            "meta": {"phase": phase, "w": w, "f": f, "kshock": kshock, "exact": exact, "recovery": recovery, "band": band}}
 
 
 def execute(scenario):
@@ -189,6 +201,17 @@ def execute(scenario):
                         phase = "own_costs"
             if any(v["clause"] != "ruin_step_returns_done" for v in violations):
                 break
+            # the number the solvency test reads is itself checked: cash + positions at the liquidation side of
+            # the book at the end of the step, from the recorded trades only
+            ind_end = ledger.nlv(st["books"]) if st.get("books") else None
+            if ind_end is not None and not isinstance(nlv_end, str) and nlv_end is not None:
+                tol = ledger.tol()
+                if abs(float(ind_end) - nlv_end) > 10 * tol:
+                    violate("valuation_signal", "step {}: the account reports NLV {} but cash + positions at the liquidation side of the quotes are worth {}".format(
+                        k, nlv_end, float(ind_end)), op=k, kind="nlv_mismatch")
+                    break
+                if meta.get("band") and float(ind_end) <= 0:
+                    probe("ruin_inside_spread_band")
             broke_end = (not isinstance(nlv_end, str)) and nlv_end <= 0
             if phase is None and broke_end:
                 phase = "post_trade"
